@@ -55,7 +55,10 @@ def step (st : St) (op res : String) : St × List String :=
       if l < 0 || l > 4294967295 * 1000000000 then
         ({}, "br:rsetup.lease-out-of-range" :: (if res == "err" then [] else
           ["DIVERGE dom model=err",
-           s!"FAIL C03 a lease time of {l} ns was accepted at start-up: it cannot be announced in option 51, the lease promised and the expiry stored differ",
+           -- a negative one is announced as 2^32 − |l| seconds while the stored expiry lies in the past (C03); one that is too
+           -- long is announced modulo 2^32, i.e. not "the configured lease time" (C02); neither can be honoured on the wire (C19)
+           (if l < 0 then s!"FAIL C03 a lease time of {l} ns was accepted at start-up: the lease announced in option 51 is 2^32 s longer than the expiry that is stored"
+            else s!"FAIL C02 a lease time of {l} ns was accepted at start-up: option 51 announces it modulo 2^32 s, not the configured lease time"),
            s!"FAIL C19 a lease time of {l} ns was accepted at start-up: it cannot be honoured on the wire"]))
       else
       match RState.setup s e l [] some id with
